@@ -17,6 +17,8 @@ RULE = ('one case = (k snapshots, outcome per snapshot in {ok, conversion fails,
         'after flush}); for each case every schedule with <= bound preemptions at line granularity in deep/task and '
         'push_service.py is executed on the real code; non-trivial = executions in which flush really overlapped '
         'unfinished tasks or a task failed')
+RULE_ADDED = "round 5: the re-entrant cases record the order of 'task ran' and 'flush returned' at every line of submit_task"
+RULE = RULE + ' ; ' + RULE_ADDED
 ASSUMPTIONS = ['Future.result(10) timeouts never fire: every accepted task finishes (a task that never finishes is reported as deadlock)',
                'thread switches are explored at source-line granularity inside deep/task/__init__.py and deep/push/push_service.py and at every shim operation',
                'SchedPool models ThreadPoolExecutor(max_workers=2): FIFO queue, lazy worker spawn, worker body transcribed from _WorkItem.run',
